@@ -655,6 +655,13 @@ func QuiesceNoTimers() {
 	e.noTimers = old
 }
 
+// HoldTimers stops (true) / resumes (false) the firing of timers altogether.
+func HoldTimers(on bool) {
+	if ex != nil {
+		ex.noTimers = on
+	}
+}
+
 // SetHorizon changes the virtual-time horizon (absolute virtual ns; 0 = unlimited).
 func SetHorizon(h int64) {
 	if ex != nil {
